@@ -220,9 +220,13 @@ def whole_cart(seed, fmt):
         mem = cartgen.with_untouched_sfx(mem, seed[-2])     # untouched-looking sfx rows (speed 16, no notes)
         modes = modes + ('untouched_sfx',)
     version = 1 + ch.below(255)
+    if seed[-10] % 8 == 0:
+        version = 0          # (version 0: code is never stored compressed, the byte at 0x8000 is 0)
     code = compressible_code(ch)
     has_label = ch.chance(128)
     label = expand(b'l' + seed, 8192) if has_label else None
+    if has_label and seed[-11] % 4 == 0:
+        label = bytes(8192)          # a label captured from a black screen: 128 rows of '0'
     case = {'cart_seed': bytes(seed), 'fmt': fmt}
     if fmt == 'p8':
         g = cartgen.make_game(mem, version=version, code=code, label=label)
